@@ -7,10 +7,11 @@ parse / report / fix and its temp-file protocol).  The order theorems hold for A
 tables (`Tables` is universally quantified); `Generated/C20Tables.lean` holds the tables of the
 working tree, re-read on every run, and the instance theorems at the end are stated on them.
 
-Two clauses of the property do NOT hold for the code as written; both are shown on the real
-implementation by harness/c20.py and recorded in known_findings.jsonl:
-  * `--fix-indents` cannot write its output (bytes to a text handle): `fix_crash_leaves_tmp`;
-  * the fixer is not idempotent: `fix_not_idem` (negation proved), `fix_idem_partial` (hypothesis).
+The two `fix_indents` defects of the snapshot (bytes written to a text handle; every later
+continuation line gaining a tab per pass) are repaired in /repo (773ae3f7f, 4e3df52c9) and the model
+follows the repaired code.  `fix_idem` still needs one hypothesis (`fix_idem_partial`), and
+`fix_idem_needs_hypothesis` shows why: a directive whose backslash is followed by blanks becomes a
+multi-line directive once it is stripped, so the line after it is first indented by the SECOND pass.
 -/
 import SymbolVerif.Proofs.IncludeOrderLemmas
 import SymbolVerif.Proofs.IndentLemmas
@@ -217,25 +218,11 @@ theorem fix_no_complaint (known : List Indent.Str) (ls : List Indent.Str) (fs fs
   reportGo_of_stripped fs' (parse_fix_stripped known ls false false 1 fs false fs' (fun h => h) h1 h2)
 
 open SymbolVerif.Lint.Indent in
-/-- `fix_idem` does NOT hold for the code as written: a conforming file (no complaint) with a
-    three-line macro is changed by the fixer, and changed again by a second pass (every continuation
-    line after the first gains a tab per pass). -/
-theorem fix_not_idem :
-    ∃ (ls : List Indent.Str) (fs fs' : List Fix),
-      parse Generated.C20.ppDirectives ls = some fs ∧ report fs = [] ∧
-      parse Generated.C20.ppDirectives (fixLines fs ls) = some fs' ∧
-      fixLines fs ls ≠ ls ∧ fixLines fs' (fixLines fs ls) ≠ fixLines fs ls := by
-  refine ⟨["#define A(X) \\".toList, "\tfoo(X); \\".toList, "\tbar(X)".toList],
-    [⟨.ppline, 1, "#define A(X) \\".toList⟩, ⟨.continuation, 2, "\tfoo(X); \\".toList⟩,
-      ⟨.continuation, 3, "\tbar(X)".toList⟩],
-    [⟨.ppline, 1, "#define A(X) \\".toList⟩, ⟨.continuation, 2, "\tfoo(X); \\".toList⟩,
-      ⟨.continuation, 3, "\t\tbar(X)".toList⟩], ?_, ?_, ?_, ?_, ?_⟩ <;> decide +kernel
-
-open SymbolVerif.Lint.Indent in
-/-- `fix_idem` under a hypothesis on the once-fixed file: if there every continuation line directly
-    follows its directive line and carries one tab (`contSettled`; this excludes macros with two or
-    more continuation lines, and a directive whose backslash was followed by blanks), a second pass
-    changes nothing.  Missing for the full statement: it is false (`fix_not_idem`). -/
+/-- `fix_idem` under a hypothesis on the once-fixed file: if there every FIRST continuation line (the
+    line directly after its directive line) carries one tab (`contSettled`), a second pass changes
+    nothing.  Later continuation lines need nothing (the fixer copies them), directive lines need
+    nothing (`parse_fix_stripped`: they are stripped).  The hypothesis cannot be dropped:
+    `fix_idem_needs_hypothesis`. -/
 theorem fix_idem_partial (known : List Indent.Str) (ls : List Indent.Str) (fs fs' : List Fix)
     (h1 : parse known ls = some fs) (h2 : parse known (fixLines fs ls) = some fs')
     (hc : contSettled false fs') :
@@ -243,6 +230,19 @@ theorem fix_idem_partial (known : List Indent.Str) (ls : List Indent.Str) (fs fs
   fixGo_of_settled (fixLines fs ls) false 1 fs' false h2
     (settled_of_stripped fs' false
       (parse_fix_stripped known ls false false 1 fs false fs' (fun h => h) h1 h2) hc)
+
+open SymbolVerif.Lint.Indent in
+/-- Why `fix_idem` is not unconditional: `#define A \ ` (a blank after the backslash) is a one-line
+    directive for the parse; the first pass strips it to `#define A \`, which now continues on the
+    next line, and the second pass gives that line its tab.  (Outside the property's quantifier: not a
+    mis-indentation; the harness checks this case for model correspondence only.) -/
+theorem fix_idem_needs_hypothesis :
+    ∃ (ls : List Indent.Str) (fs fs' : List Fix),
+      parse Generated.C20.ppDirectives ls = some fs ∧
+      parse Generated.C20.ppDirectives (fixLines fs ls) = some fs' ∧
+      fixLines fs' (fixLines fs ls) ≠ fixLines fs ls := by
+  refine ⟨["#define A \\ ".toList, "foo".toList], [⟨.ppline, 1, "#define A \\ ".toList⟩],
+    [⟨.ppline, 1, "#define A \\".toList⟩, ⟨.continuation, 2, "foo".toList⟩], ?_, ?_, ?_⟩ <;> decide +kernel
 
 open SymbolVerif.Lint.Indent in
 /-- a file whose directive lines are stripped and whose continuation lines are settled is left
@@ -278,8 +278,10 @@ theorem fix_leaves_no_file (known : List Indent.Str) (fs : FS) (path content : I
       FS.get_put_other _ _ hq2, FS.get_put_other _ _ hq2]
 
 open SymbolVerif.Lint.Indent in
-/-- The pinned code: `outf.write` raises on the first line (bytes to a text handle).  The pass
-    aborts with the original untouched and an empty `<path>.tmp` left behind. -/
+/-- A write that raises on the first line (the snapshot's bytes-to-text-handle `TypeError`, repaired in
+    /repo 773ae3f7f; in general any failing write): the pass aborts with the original untouched and
+    an empty `<path>.tmp` left behind - the protocol never removes the original before the temporary
+    file is complete. -/
 theorem fix_crash_leaves_tmp (known : List Indent.Str) (fs : FS) (path content : Indent.Str) (fixes : List Fix)
     (hget : fs.get path = some content) (hparse : parse known (splitLines content) = some fixes)
     (hne : fixes.isEmpty = false) (hlines : (splitLines (universalNewlines content)).isEmpty = false) :
@@ -335,6 +337,10 @@ example : lt Generated.C20.tables "\"catapult/model/Block.h\"".toList "\"catapul
   decide +kernel
 example (a b : Str) : sort Generated.C20.tables [a, b] = sort Generated.C20.tables [b, a] :=
   sort_unique _ (List.Perm.swap b a [])
+-- the three-line macro that used to gain a tab per pass is now a fixed point of the fixer
+example : Indent.fixLines [⟨.ppline, 1, "#define A(X) \\".toList⟩, ⟨.continuation, 2, "\tfoo(X); \\".toList⟩,
+      ⟨.continuation, 3, "\tbar(X)".toList⟩] ["#define A(X) \\".toList, "\tfoo(X); \\".toList, "\tbar(X)".toList]
+    = ["#define A(X) \\".toList, "\tfoo(X); \\".toList, "\tbar(X)".toList] := by decide +kernel
 example : Indent.report [⟨.ppline, 3, "\t#include <x>".toList⟩] = [(3, .alignColumn0)] := by decide +kernel
 
 end SymbolVerif.C20
